@@ -23,7 +23,7 @@ RULE = ('A case is a pair (p, q) of repo patterns built from one O1 term e (or f
 ASSUMPTIONS = ['notation definitions that contain deferred substitutions are not folded (none of the shipped ones does)']
 FLOORS = {'quick': {'pairs': 5000, 'depth1': 300, 'depth2': 300, 'depth3': 200, 'depth4': 30, 'op:eq': 5000, 'op:evar_is_free': 5000, 'op:metavars': 2000,
                     'op:apply_esubst': 2000, 'op:apply_ssubst': 2000, 'op:instantiate': 2000, 'op:match_single_pat': 1000,
-                    'op:match_single_inst': 1000, 'op:unwrap': 2000, 'op:deconstruct': 2000, 'op:matches': 2000, 'near_miss_pairs': 1000,
+                    'op:match_single_inst': 1000, 'op:unwrap': 2000, 'op:deconstruct': 2000, 'op:deconstruct_nary': 2000, 'op:deconstruct_nary_spine>=2': 100, 'op:matches': 2000, 'near_miss_pairs': 1000,
                     'equal_pairs_different_spelling': 1000, 'transitivity_triples': 500}}
 FLOORS['thorough'] = dict(FLOORS['quick'], pairs=200000)
 
@@ -219,6 +219,19 @@ def shard(ctx):
             if na != nb:
                 viol('deconstruct_differs_on_notation', f'{cls.__name__}.deconstruct differs between notation and expansion', p=p,
                      expansion=tb.pretty(e), on_notation=str(a), on_expansion=str(b))
+        # n-ary application spine (proofs.kore.deconstruct_nary_application): head and argument list
+        try:
+            K = repo.mod('proofs.kore')
+            ha, aa = K.deconstruct_nary_application(p)
+            hb, ab = K.deconstruct_nary_application(er)
+            ctx.count('op:deconstruct_nary')
+            if len(ab) >= 2:
+                ctx.count('op:deconstruct_nary_spine>=2')
+            if E(ha) != E(hb) or tuple(E(v) for v in aa) != tuple(E(v) for v in ab):
+                viol('deconstruct_nary_differs_on_notation', 'deconstruct_nary_application differs between notation and expansion', p=p,
+                     expansion=tb.pretty(e), on_notation=str((ha, aa)), on_expansion=str((hb, ab)))
+        except Exception as ex:
+            viol('deconstruct_nary_raises', f'deconstruct_nary_application raised {type(ex).__name__}', p=p, error=repr(ex))
         ctx.count('op:matches')
         key, n, fam, de, sf = rng.choice(T.items)
         try:
